@@ -205,6 +205,8 @@ def gen_value_arg(rng, prop):
     if prop == 'C02':
         return gen_plain(rng)
     r = rng.random()
+    if r < 0.03 and prop in ('C01', 'C03', 'C07', 'C08'):
+        return ['root_move', rng.randint(0, 3)]
     if r < 0.08:
         return ['attached', rng.randint(0, 3), rng.randint(0, 9)]
     if r < 0.13:
@@ -366,6 +368,8 @@ class Forest:
         self.raise_at = case.get('faults', {}).get('raise_in_handler')
         self.events = []         # (receiver id, {path str: (old, new)})
         self.fault_fired = 0
+        self.moved = []          # indices of roots handed over as arguments by the current op
+        self.current_root = None
 
     def callback_for(self, holder):
         """A change callback for a Dict/List.  Clones of the container carry the
@@ -481,6 +485,16 @@ def _materialize(forest, vdesc):
             # pyglove defines nothing for it); use an independent copy
             return node.clone(deep=True)
         return node             # attached elsewhere: the library must copy it
+    if vdesc[0] == 'root_move':
+        # a whole other tree, inserted by reference: it must move (no copy) and
+        # stop being a root; if the write is rejected it must stay detached
+        if len(forest.roots) < 2 or forest.current_root is None:
+            return 0
+        r = vdesc[1] % len(forest.roots)
+        if r == forest.current_root or not isinstance(forest.roots[r], pg.Symbolic):
+            return 0
+        forest.moved.append(r)
+        return forest.roots[r]
     if vdesc[0] == 'missing':
         return MISSING
     if vdesc[0] == 'insertion':
@@ -584,6 +598,8 @@ def execute(forest, op, mirror=None):
     if t is None:
         return out
     out.target, out.root_index = t, r
+    forest.current_root = r
+    del forest.moved[:]
     out.target_path = list(t.sym_path.keys)
     k, a = op['k'], op['a']
     if k.startswith('l_') and not isinstance(t, pg.List):
@@ -1069,6 +1085,21 @@ def run_case(case: dict, prop=None):
                 if isinstance(r, pg.Symbolic) and len(forest.roots) < 6:
                     forest.roots.append(r)
                     forest.meta.append({'kind': 'derived'})
+            # roots that were handed over and got attached are no longer roots
+            gone = sorted({m for m in forest.moved
+                           if m < len(forest.roots) and isinstance(forest.roots[m], pg.Symbolic)
+                           and forest.roots[m].sym_parent is not None}, reverse=True)
+            if gone:
+                probes['root_moved_into_tree'] = probes.get('root_moved_into_tree', 0) + 1
+                tgt = forest.roots[out.root_index]
+                for m in gone:
+                    del forest.roots[m]
+                    del forest.meta[m]
+                    del pre[m]
+                    del pre_nodes[m]
+                out.root_index = next(i for i, x in enumerate(forest.roots) if x is tgt)
+            elif forest.moved and out.status == 'raised':
+                probes['rejected_root_move'] = probes.get('rejected_root_move', 0) + 1
             post = [snapshot(r) for r in forest.roots]
             log.append([op['k'], out.status, type(out.exc).__name__ if out.exc else None,
                         small_hash([p[0] for p in post])])
@@ -1761,6 +1792,14 @@ class C03Oracle(OracleBase):
                 continue
             for code, msg in schema_errors(root, self.partial_ok)[:1]:
                 status = out.status if out is not None else '-'
+                if out is not None and status == 'raised' and ri in self.forest.moved:
+                    # the rejected *argument* (a detached untyped container handed over
+                    # by reference) was bound to the field's spec before validation failed
+                    self.bad('C03.rejected-argument-bound-to-spec', 'detached-container',
+                             f'after {op["k"]}{json.dumps(op["a"])[:160]} was rejected, the '
+                             f'argument (root {ri}) carries the value spec of the field that '
+                             f'rejected it: {msg}', step)
+                    return False
                 self.bad(f'C03.{code}', f'{op["k"]}|{status}',
                          f'after {op["k"]}{json.dumps(op["a"])[:160]} ({status}): root {ri}: {msg}',
                          step)
@@ -1936,7 +1975,15 @@ class C07Oracle(OracleBase):
                              f'{k} changed root {ri}: {pre[ri][0][:160]} -> {post[ri][0][:160]}',
                              step)
                     return
-        if k in CLONE_OPS and out.status == 'raised' and not isinstance(out.exc, HandlerFault):
+        hostile = any((n == 'as_sealed' and v is True) or
+                      (n == 'allow_writable_accessors' and v is False) or
+                      (n == 'allow_partial' and v is False)      # clone of a partial value
+                      for n, v in op.get('scopes', []))
+        if k in CLONE_OPS and out.status == 'raised' and hostile:
+            # constructing objects inside as_sealed(True) / allow_writable_accessors(False)
+            # is refused by the library (see the C08 known finding); C07 has no scope dimension
+            self.probes['clone_refused_under_scope'] = self.probes.get('clone_refused_under_scope', 0) + 1
+        elif k in CLONE_OPS and out.status == 'raised' and not isinstance(out.exc, HandlerFault):
             self.bad('C07.clone-raises', f'{k}|{type(out.exc).__name__}',
                      f'{k} of a {type(out.target).__name__} raised {type(out.exc).__name__}: '
                      f'{str(out.exc)[:200]}', step)
@@ -2070,7 +2117,9 @@ class C08Oracle(OracleBase):
         plan = getattr(self, 'plan', None)
         if plan is None or out.status == 'skipped':
             return
-        r = plan['r']
+        r = out.root_index            # (roots handed over as arguments may have left the list)
+        if r is None or r >= len(pre) or r >= len(post):
+            return
         changed_prot = [p for p in plan['changed'] if plan['prot'].get(p)]
         tprot = plan['prot'].get(plan['tpath'])
         flagsig = 'mixed-seal' if plan['mixed'] else f'{k}|scope={plan["scope_sealed"]}'
